@@ -133,7 +133,17 @@ class Summaries:
             self._site_targets[(cs.caller.key, cs.node.id)] = cs
 
     def site(self, func, call_node):
-        return self._site_targets.get((func.key, call_node.id))
+        cs = self._site_targets.get((func.key, call_node.id))
+        if cs is None and getattr(func, 'inlined_from', None) and call_node.k == 'CallExpr' and call_node.get('callee'):
+            # a call that came into an inlined view with the body of a file-local helper: a direct call by name
+            key = ('view', func.key, call_node.id)
+            cs = self._site_targets.get(key)
+            if cs is None:
+                from .callgraph import CallSite
+                t = self.cg.prog.func(call_node.get('callee'), func.tu)
+                cs = CallSite(func, call_node, [t if t is not None else 'ext:' + call_node.get('callee')], False, 'direct')
+                self._site_targets[key] = cs
+        return cs
 
     def targets(self, func, call_node):
         cs = self.site(func, call_node)
